@@ -37,7 +37,7 @@ UTC = datetime.timezone.utc
 SEGMENT_FAULTS = ['tfdt-plus', 'tfdt-minus', 'mfhd-plus', 'trun-offset', 'saio-offset', 'http-404', 'content-type']
 INIT_FAULTS = ['init-no-mvhd', 'init-no-trex', 'init-no-tenc']
 MANIFEST_FAULTS = ['timeline-remove-s', 'timeline-shift-t', 'no-availabilityStartTime', 'no-publishTime',
-                   'no-minBufferTime', 'no-profiles', 'ast-changes-on-refresh']
+                   'no-minBufferTime', 'no-profiles', 'ast-changes-on-refresh', 'no-bandwidth']
 # faults in an MPD patch document (the refresh of a patch=1 session)
 PATCH_FAULTS = ['patch-no-mpdId', 'patch-original-publish-time', 'patch-selector-misses']
 
@@ -390,7 +390,7 @@ class Session:
         log = logging.getLogger('dlv.c18')
         log.setLevel(logging.CRITICAL)
         opts = ValidatorOptions(duration=case.get('duration', 8), encrypted='drm' in case['params'],
-                                pool=make_pool(), log=log,
+                                pool=make_pool(), log=log, pretty=bool(case.get('pretty')),
                                 start_time=RelaxedDateTime.now(UTC).replace(
                                     year=now.year, month=now.month, day=now.day, hour=now.hour, minute=now.minute,
                                     second=now.second, microsecond=now.microsecond))
@@ -529,7 +529,8 @@ def gen_case(ctx: ShardCtx) -> dict:
             params[f'{ev}__count'] = str(rng.choice([1, 3, 5]))
     if manifest == 'hand_made.mpd' and mode == 'live' and params.get('timeline') == '1' and rng.random() < 0.3:
         params['patch'] = '1'
-    return {'stream': 'bbb', 'manifest': manifest, 'mode': mode, 'params': params, 'now': now.isoformat(), 'duration': 8}
+    return {'stream': 'bbb', 'manifest': manifest, 'mode': mode, 'params': params, 'now': now.isoformat(), 'duration': 8,
+            'pretty': rng.random() < 0.4}
 
 
 def run_shard(ctx: ShardCtx) -> ShardResult:
@@ -577,7 +578,7 @@ def run_shard(ctx: ShardCtx) -> ShardResult:
                 if case['mode'] == 'live':
                     pool += MANIFEST_FAULTS
                 else:
-                    pool += ['no-minBufferTime', 'no-profiles'] + (
+                    pool += ['no-minBufferTime', 'no-profiles', 'no-bandwidth'] + (
                         ['timeline-remove-s', 'timeline-shift-t'] if case['params'].get('timeline') == '1' else [])
                 if 'drm' not in case['params']:
                     pool = [f for f in pool if f not in ('saio-offset', 'init-no-tenc')]
@@ -676,7 +677,23 @@ def run_shard(ctx: ShardCtx) -> ShardResult:
             res.count('faults.detected')
             # located at the corrupted element?
             located = False
-            if fault in MANIFEST_FAULTS or fault in PATCH_FAULTS:
+            if fault == 'no-bandwidth':
+                # the error is reported on the lines of a Representation element of the text the validator shows
+                # (which is the pretty-printed text when that option is on)
+                for e in errors:
+                    if 'andwidth' not in str(e):
+                        continue
+                    for lines in (out.get('lines_history') or [out['lines']]):
+                        if e.location and e.location.start is not None:
+                            # the element whose start tag contains (or is the last one opened before) that line
+                            import re as _re
+                            idx = min(len(lines), e.location.start) - 1
+                            while idx >= 0 and not _re.search(r'<[A-Za-z]', lines[idx]):
+                                idx -= 1
+                            if idx >= 0 and _re.findall(r'<([A-Za-z:]+)', lines[idx])[-1].endswith('Representation'):
+                                located = True
+                res.count('faults.location_judged_in_manifest')
+            elif fault in MANIFEST_FAULTS or fault in PATCH_FAULTS:
                 located = True       # any error of the manifest document counts for MPD-level faults
             else:
                 # error locations are line numbers of the manifest version that was current when the error
